@@ -14,7 +14,8 @@ LEVEL = "exploration"
 RULE = ("Hypothesis draws 1-4 (controlled) or 2-8 (stress) independent pipelines (generate + merge + names + render; inputs from C01's "
         "shapes incl. the 'sub-model shared by two nested models under one root' shape whose nested layout has a non-empty "
         "absolute-reference context; mixed frameworks and layouts) whose key universes are made pairwise disjoint by a per-pipeline "
-        "key suffix, and a schedule. mode 'single': one pipeline in a fresh worker thread. mode 'controlled': the harness owns the "
+        "key suffix, and a schedule. mode 'single': one pipeline in a fresh worker thread; mode 'single_class': the per-class rendering API (<Generator>(model).generate() "
+        "for every model) in a fresh worker thread that never entered generate_code. mode 'controlled': the harness owns the "
         "schedule - worker threads run under sys.settrace and park at every call/return event of a json_to_models function; the "
         "controller resumes the thread named by the next schedule element (a list of small ints, then round-robin). mode 'stress': "
         "threads released by a barrier under sys.setswitchinterval(1e-6). Oracle: every pipeline's text equals its text when run "
@@ -48,8 +49,8 @@ def pipeline_specs(draw, i):
 
 @st.composite
 def cases(draw, tier="quick", mode=None):
-    mode = mode or draw(st.sampled_from(["controlled", "controlled", "single"]))
-    n = 1 if mode == "single" else draw(st.integers(2, 4 if mode == "controlled" else 8))
+    mode = mode or draw(st.sampled_from(["controlled", "controlled", "single", "single_class"]))
+    n = 1 if mode in ("single", "single_class") else draw(st.integers(2, 4 if mode == "controlled" else 8))
     pipes = [draw(pipeline_specs(i)) for i in range(n)]
     schedule = draw(st.lists(st.integers(0, 7), max_size=300)) if mode == "controlled" else []
     return {"mode": mode, "pipelines": pipes, "schedule": schedule}
@@ -57,7 +58,7 @@ def cases(draw, tier="quick", mode=None):
 
 def valid(case):
     try:
-        if case["mode"] not in ("single", "controlled", "stress") or not case["pipelines"]:
+        if case["mode"] not in ("single", "single_class", "controlled", "stress") or not case["pipelines"]:
             return False
         if not all(isinstance(x, int) and 0 <= x < 64 for x in case["schedule"]):
             return False
@@ -108,7 +109,18 @@ def check(case):
     if any_ctx:
         r.label("pipeline-with-nonempty-reference-context")
     jobs = [job(s) for s in specs]
-    if mode == "single":
+    if mode == "single_class":
+        # the per-class rendering API, from a fresh thread that has never been inside generate_code
+        def one():
+            b = pl.build(specs[0]["samples"], specs[0]["opts"])
+            return "\n".join(pl.render_single_model(b.reg, specs[0]["opts"], i) for i in range(len(list(b.reg.models))))
+        try:
+            exp1 = ("ok", one())
+        except Exception as e:  # noqa: BLE001
+            exp1 = ("exc", type(e).__name__, str(e)[:200])
+        solos = [(exp1, solos[0][1], solos[0][2])]
+        jobs = [one]
+    if mode in ("single", "single_class"):
         res = [None]
 
         def w():
